@@ -198,13 +198,16 @@ def load(root=None, log=None):
     d = os.path.join(CACHE, dig)
     facts_dir = os.path.join(d, "facts")
     pk = os.path.join(d, "facts.pickle")
+    os.makedirs(d, exist_ok=True)
+    import fcntl
+    lockf = open(os.path.join(d, "lock"), "w")
+    fcntl.flock(lockf, fcntl.LOCK_EX)       # two runs on trees with the same digest must not extract into the same directory
     if os.path.exists(pk):
         with open(pk, "rb") as f:
             docs = pickle.load(f)
         if log is not None:
             log.append("facts cache hit %s" % dig)
     else:
-        os.makedirs(d, exist_ok=True)
         extract(root, facts_dir, log=log)
         docs = _load_dir(facts_dir)
         docs["__deps__"] = crate_deps(root)
@@ -217,6 +220,8 @@ def load(root=None, log=None):
         os.replace(tmp, pk)
         shutil.rmtree(facts_dir, ignore_errors=True)
         _prune_cache(keep=dig)
+    fcntl.flock(lockf, fcntl.LOCK_UN)
+    lockf.close()
     fx = Facts(docs, root)
     fx.digest = dig
     return fx
